@@ -277,7 +277,81 @@ Definition inl_only (b tn : table_def) : bool :=
   | g => (forallb (is_inl_action b tn) g && nodup_str (colnames b)
           && forallb default_renders (t_columns tn))%bool
   end.
-Definition core_only (b tn : table_def) : bool := (change_only b tn || inl_only b tn)%bool.
+(* ---------- fifth rung: the rungs mixed in one group ---------- *)
+Definition sba_empty_arr (o : option str_or_bool_or_array) : bool :=
+  match o with Some (SArr []) => true | _ => false end.
+(* RemoveConstraint of k neither clears an inline declaration of the column nor removes the constraint
+   that covers one of the column's own inline declarations *)
+Definition col_safe_b (table : string) (col : column_def) (k : table_constraint) : bool :=
+  match k with
+  | CPrimaryKey _ _ => is_none (c_primary_key col)
+  | CUnique name columns =>
+      (is_none (c_unique col)
+       || (negb (mem_str (c_name col) columns)
+           && match name with Some cn => negb (mem_str cn (ukeys col)) | None => true end
+           && negb (sba_empty_arr (c_unique col))))%bool
+  | CForeignKey _ columns _ _ _ _ => (is_none (c_foreign_key col) || negb (mem_str (c_name col) columns))%bool
+  | CCheck _ _ => true
+  | CIndex name columns =>
+      (is_none (c_index col)
+       || (negb (mem_str (c_name col) columns)
+           && match name with Some cn => negb (mem_str cn (ikeys col)) | None => true end
+           && negb (sba_empty_arr (c_index col))
+           && negb (opt_str_eqb name (Some (build_index_name table [c_name col] None)))))%bool
+  end.
+(* the name under which a unique / index constraint can cover an inline group *)
+Definition cname (k : table_constraint) : option string :=
+  match k with CUnique n _ | CIndex n _ => n | _ => None end.
+Definition others_named (x : string) (cols : list column_def) (p : column_def -> bool) : bool :=
+  forallb (fun col => (String.eqb (c_name col) x || p col)%bool) cols.
+(* a constraint over the dropped column x alone, that is not the primary key, that the target does not
+   keep, and whose name covers no inline group of another column: drop_column_from_constraints removes
+   it with the column and the planner rightly emits no RemoveConstraint for it *)
+Definition single_b (x : string) (cols : list column_def) (tcs : list table_constraint)
+  (k : table_constraint) : bool :=
+  (match constraint_columns k with [y] => String.eqb y x | _ => false end
+   && negb (is_pk k) && negb (contains_constraint k tcs)
+   && match cname k with
+      | Some n => others_named x cols (fun col => (negb (mem_str n (ukeys col)) && negb (mem_str n (ikeys col)))%bool)
+      | None => true
+      end)%bool.
+(* DeleteColumn x: the column has no inline primary key, shares no inline group key with another column
+   of either side, and every constraint of either side that mentions x is such a single constraint *)
+Definition del_ok_b (b tn : table_def) (x : string) : bool :=
+  match find_column x b with
+  | None => false
+  | Some X =>
+      let cols := t_columns b ++ t_columns tn in
+      (is_none (c_primary_key X)
+       && others_named x cols (fun col => keys_free_b col X)
+       && forallb (fun k => (negb (mentions x k) || single_b x cols (t_constraints tn) k)%bool)
+                  (t_constraints b ++ t_constraints tn))%bool
+  end.
+Definition is_fk (k : table_constraint) : bool :=
+  match k with CForeignKey _ _ _ _ _ _ => true | _ => false end.
+Definition is_mix_action (b tn : table_def) (a : action) : bool :=
+  match a with
+  | ModifyColumnType _ _ _ _ | ModifyColumnNullable _ _ _ _
+  | ModifyColumnDefault _ _ _ | ModifyColumnComment _ _ _ => true
+  | AddConstraint _ _ => true
+  | AddColumn _ c _ => inline_ok b tn c
+  | DeleteColumn _ x => del_ok_b b tn x
+  | RemoveConstraint _ k =>
+      (* a foreign key may always go (its inline declarations are cleared with it); other kinds must
+         not touch an inline declaration of a baseline column; added columns must stay untouched *)
+      ((is_fk k || forallb (fun col => col_safe_b (t_name b) col k) (t_columns b))
+       && forallb (fun col => col_safe_b (t_name b) col k)
+                  (filter (fun col => negb (mem_str (c_name col) (colnames b))) (t_columns tn)))%bool
+  | _ => false
+  end.
+Definition mix_only (b tn : table_def) : bool :=
+  match table_group (t_name b) b tn with
+  | [] => true
+  | g => (forallb (is_mix_action b tn) g && nodup_str (colnames b)
+          && forallb default_renders (t_columns tn)
+          && forallb cons_ok (t_constraints b ++ t_constraints tn))%bool
+  end.
+Definition core_only (b tn : table_def) : bool := (change_only b tn || inl_only b tn || mix_only b tn)%bool.
 Definition c01_core (B T : schema) : bool := (baseline_ok B && c01_models core_only B T)%bool.
 
 (* ---------- lifted to correspondence cases ---------- *)
